@@ -6,6 +6,8 @@ import Rare.Proofs.C03ReduceExpr
 import Rare.Proofs.C03Analyze
 import Rare.Proofs.C03Wiring
 import Rare.Proofs.C03Spark
+import Rare.Proofs.C03Cmd
+import Rare.Proofs.C03SparkCsv
 import Rare.Gen.C03
 import Rare.Props.C07
 import Rare.Props.C13
@@ -31,12 +33,15 @@ independent, those two only in exact arithmetic (known finding F26 with a kernel
 wiring of all seven commands regenerated from the Go AST (`Gen/C03.lean`), with the CSV determinism theorems
 instantiated for the sorter each writer names in the source.
 
-Not covered by a theorem (correspondence only, `extra/C03.py` / the in-process `reduce` and `analyze` ops):
+Last section: the five counting commands' functions (`Model/C03Cmd.lean`: which rows the histogram shows, the footers,
+`--csv`, exit status) – schedule independent as a whole, and `spark`'s CSV text under any placing of its trimming renders.
+
+Not covered by a theorem (correspondence only, `extra/C03.py` / the in-process `cmd`, `reduce` and `analyze` ops):
 `reduce` with ORDER-SENSITIVE accumulators over several sources (the pipeline LTS lets sources start in any order;
-one source and one worker is covered), `spark`, whose renders TRIM the table: with a value-ordered column sort the
-result depends on render timing (F24, known finding); the padding of the final frame (F25, known finding: the
-snapshot is claimed modulo runs of spaces); the inferring sorters `contextual` / `date` of the render callbacks
-(C13, F19).
+one source and one worker is covered); the drawing of rows, bars and heat cells (C14/C20) and the padding of the final
+frame (F25, known finding: the snapshot is claimed modulo runs of spaces); the inferring sorters `numeric` (on mixed
+keys), `contextual`, `date` of the render callbacks (C13, F19).  (`spark` with a value-ordered column sort depended on
+render timing, F24: fixed by b216f7d – it no longer trims; `spark_value_trim_timing_counterexample` keeps the witness.)
 -/
 namespace Rare.C03
 open Rare.C07 Rare.C13 Rare.Pipeline Rare.C01
@@ -1093,5 +1098,181 @@ example : (SortExpr.byContextual).nvCmp = none ∧ (SortExpr.valueNilSorter .byN
 example : evalExitChain Gen.C03.exitChain Gen.C03.exitDefault 0 false 3 10 = 2 ∧
     evalExitChain Gen.C03.exitChain Gen.C03.exitDefault 0 true 3 10 = 0 ∧
     evalExitChain Gen.C03.exitChain Gen.C03.exitDefault 0 false 0 0 = 1 := by decide
+
+/-! ## the command functions (`Model/C03Cmd.lean`; correspondence op `cmd`) -/
+
+/-- Every `--sort` / `--sort-cols` / `--sort-rows` name that denotes a comparator WITHOUT hidden state – `text` and
+`value` in any spelling with any modifier (`:asc`, `:desc`, `:rev`, `:reverse`) – is a strict total order on rows with
+distinct names (map keys are distinct): `sort.Sort` has one possible answer.  The table of what the common names denote;
+`numeric`, `contextual`, `date` infer and are C13's. -/
+theorem sort_names_pure_strict_total :
+    (∀ fullName less, pureSortLess fullName = some less →
+      ∀ items : List NV, (items.map (·.name)).Nodup → OrderOn (· ∈ items) less) ∧
+    pureSortLess (asc "value") = some (revLess nvValueAscLess) ∧ pureSortLess (asc "VALUE:rev") = some nvValueAscLess ∧
+    pureSortLess (asc "value:asc") = some nvValueAscLess ∧ pureSortLess (asc "text") = some nvNameLess ∧
+    pureSortLess (asc "Text:desc") = some (revLess nvNameLess) ∧ pureSortLess [] = some nvNameLess ∧
+    pureSortLess (asc "numeric") = none ∧ pureSortLess (asc "contextual") = none ∧ pureSortLess (asc "date") = none ∧
+    pureSortLess (asc "value:up") = none ∧
+    sortsByValue (asc "value") = true ∧ sortsByValue (asc "Value:ASC") = true ∧ sortsByValue (asc "text") = false ∧
+    sortsByValue (asc "value:up") = false :=
+  ⟨pureSortLess_order, rfl, rfl, rfl, rfl, rfl, rfl, rfl, rfl, rfl, rfl, rfl, rfl, rfl, rfl⟩
+
+/-- `rare histo`, everything the command function produces: the `--num` rows on the screen (top `--num` in `--sort`
+order, then `--atleast`), the footer `Matched: m / r (Groups: g) (Ignored: i) (Errors: e)`, the `--all` table, the `--csv`
+text and the exit status.  Two terminal states of the whole program for the same files and command line – any
+`--workers`, `--readers`, `--batch`, `--batch-buffer`, schedule, contract-abiding `sort.Sort`, map iteration orders –
+give the SAME result, the result of the sequential reference; the CSV reads back as the reference rows. -/
+theorem histo_command_schedule_independent (cls : Line → Cls) (key : Line → Bytes) (datas : List Bytes)
+    (cfg₁ cfg₂ : Config) (hW₁ : 1 ≤ cfg₁.W) (hW₂ : 1 ≤ cfg₂.W) (h₁ h₂ : List Bytes) (c₁ c₂ : Counters)
+    (t₁ : TerminalC cls key cfg₁ datas h₁ c₁) (t₂ : TerminalC cls key cfg₂ datas h₂ c₂)
+    (alg : List NV → Algo NV (List NV)) (hc : SortContract alg)
+    (sortName : Bytes) (less : NV → NV → Bool) (hs : pureSortLess sortName = some less)
+    (o₁ o₂ oref : List Bytes) (r₁ : IsRangeOf o₁ (Counter.run h₁).items) (r₂ : IsRangeOf o₂ (Counter.run h₂).items)
+    (rr : IsRangeOf oref (Counter.run (refSamples cls key datas)).items)
+    (num : Nat) (atLeast : Int) (all : Bool) (readErrors : Int) :
+    let ref := histoCmd isortFn less oref num atLeast all (Counter.run (refSamples cls key datas)) (refCounters cls datas) readErrors
+    histoCmd (sortOf alg) less o₁ num atLeast all (Counter.run h₁) c₁ readErrors = ref ∧
+    histoCmd (sortOf alg) less o₂ num atLeast all (Counter.run h₂) c₂ readErrors = ref ∧
+    parseCsv ref.csv = counterCsvRows isortFn oref (Counter.run (refSamples cls key datas)) := by
+  intro ref
+  have hless := pureSortLess_order sortName less hs
+  have key1 : ∀ (cfg : Config) (hW : 1 ≤ cfg.W) (h : List Bytes) (c : Counters) (t : TerminalC cls key cfg datas h c)
+      (o : List Bytes) (r : IsRangeOf o (Counter.run h).items),
+      histoCmd (sortOf alg) less o num atLeast all (Counter.run h) c readErrors = ref := by
+    intro cfg hW h c t o r
+    have p := terminal_perm cls key cfg hW datas h t.terminal
+    obtain ⟨a1, _, a3⟩ := C07.counter_perm (refSamples cls key datas) h p.symm
+    rw [terminalC_counters hW t]
+    exact histoCmd_det alg hc less hless _ _ a1 a3 (counter_keys_nodup _) (counter_keys_nodup _) oref o rr r num atLeast all _ readErrors
+  refine ⟨key1 cfg₁ hW₁ h₁ c₁ t₁ o₁ r₁, key1 cfg₂ hW₂ h₂ c₂ t₂ o₂ r₂, ?_⟩
+  show parseCsv (writeCsv (counterCsvRows isortFn oref _)) = _
+  exact csv_roundtrip _ (by intro r hr; simp [counterCsvRows, counterRows] at hr; rcases hr with rfl | ⟨_, _, rfl⟩ <;> simp)
+
+/-- `rare table` / `rare heatmap`: footer `Matched: m / r (R: rows; C: cols) …`, `--csv` text and exit status of two
+terminal states under any tuning and schedule are the same, those of the sequential reference. -/
+theorem table_command_schedule_independent (cls : Line → Cls) (key : Line → Bytes) (datas : List Bytes) (d : Bytes) (hd : d ≠ [])
+    (cfg₁ cfg₂ : Config) (hW₁ : 1 ≤ cfg₁.W) (hW₂ : 1 ≤ cfg₂.W) (h₁ h₂ : List Bytes) (c₁ c₂ : Counters)
+    (t₁ : TerminalC cls key cfg₁ datas h₁ c₁) (t₂ : TerminalC cls key cfg₂ datas h₂ c₂)
+    (alg : List NV → Algo NV (List NV)) (hc : SortContract alg) (co₁ co₂ ro₁ ro₂ coref roref : List Bytes)
+    (hco₁ : IsRangeOf co₁ (Table.run d h₁).cols) (hco₂ : IsRangeOf co₂ (Table.run d h₂).cols)
+    (hro₁ : IsRangeOf ro₁ (Table.run d h₁).rows) (hro₂ : IsRangeOf ro₂ (Table.run d h₂).rows)
+    (hcor : IsRangeOf coref (Table.run d (refSamples cls key datas)).cols)
+    (hror : IsRangeOf roref (Table.run d (refSamples cls key datas)).rows) (readErrors : Int) :
+    let ref := tableCmd isortFn coref roref (Table.run d (refSamples cls key datas)) (refCounters cls datas) readErrors
+    tableCmd (sortOf alg) co₁ ro₁ (Table.run d h₁) c₁ readErrors = ref ∧
+    tableCmd (sortOf alg) co₂ ro₂ (Table.run d h₂) c₂ readErrors = ref ∧
+    parseCsv ref.csv = tableCsvRows isortFn coref roref (Table.run d (refSamples cls key datas)) := by
+  intro ref
+  have key1 : ∀ (cfg : Config) (hW : 1 ≤ cfg.W) (h : List Bytes) (c : Counters) (t : TerminalC cls key cfg datas h c)
+      (co ro : List Bytes) (hco : IsRangeOf co (Table.run d h).cols) (hro : IsRangeOf ro (Table.run d h).rows),
+      tableCmd (sortOf alg) co ro (Table.run d h) c readErrors = ref := by
+    intro cfg hW h c t co ro hco hro
+    have p := terminal_perm cls key cfg hW datas h t.terminal
+    obtain ⟨b1, b2, b3, _, b5, _⟩ := C07.table_perm d hd (refSamples cls key datas) h p.symm
+    have i1 := C07.tableInv_run d hd (refSamples cls key datas)
+    have i2 := C07.tableInv_run d hd h
+    rw [terminalC_counters hW t]
+    exact tableCmd_det alg hc _ _ b1 b2 b3 b5 i1.nodupRows i2.nodupRows i1.nodupCols i2.nodupCols
+      (csv_of_state_deterministic_table alg hc _ _ b1 b2 b3 coref co roref ro hcor hco hror hro).2 _ readErrors
+  refine ⟨key1 cfg₁ hW₁ h₁ c₁ t₁ co₁ ro₁ hco₁ hro₁, key1 cfg₂ hW₂ h₂ c₂ t₂ co₂ ro₂ hco₂ hro₂, ?_⟩
+  show parseCsv (writeCsv (tableCsvRows isortFn coref roref _)) = _
+  exact csv_roundtrip _ (tableCsvRows_nonempty _ _ _ _)
+
+/-- `rare bargraph`: footer, `--csv` text and exit status, same statement. -/
+theorem bars_command_schedule_independent (cls : Line → Cls) (key : Line → Bytes) (datas : List Bytes)
+    (cfg₁ cfg₂ : Config) (hW₁ : 1 ≤ cfg₁.W) (hW₂ : 1 ≤ cfg₂.W) (h₁ h₂ : List Bytes) (c₁ c₂ : Counters)
+    (t₁ : TerminalC cls key cfg₁ datas h₁ c₁) (t₂ : TerminalC cls key cfg₂ datas h₂ c₂)
+    (alg : List NV → Algo NV (List NV)) (hc : SortContract alg) (readErrors : Int) :
+    ∃ s₁ s₂ sr, SubKeyCounter.run h₁ = .ok s₁ ∧ SubKeyCounter.run h₂ = .ok s₂ ∧
+      SubKeyCounter.run (refSamples cls key datas) = .ok sr ∧
+      ∀ o₁ o₂ oref, IsRangeOf o₁ s₁.items → IsRangeOf o₂ s₂.items → IsRangeOf oref sr.items →
+        barsCmd (sortOf alg) o₁ s₁ c₁ readErrors = barsCmd isortFn oref sr (refCounters cls datas) readErrors ∧
+        barsCmd (sortOf alg) o₂ s₂ c₂ readErrors = barsCmd isortFn oref sr (refCounters cls datas) readErrors := by
+  have p1 := terminal_perm cls key cfg₁ hW₁ datas h₁ t₁.terminal
+  have p2 := terminal_perm cls key cfg₂ hW₂ datas h₂ t₂.terminal
+  obtain ⟨sr, s₁, e3, e1, a1, ae, a2, a3⟩ := C07.subkey_perm (refSamples cls key datas) h₁ p1.symm
+  obtain ⟨sr', s₂, e3', e2, b1, be, b2, b3⟩ := C07.subkey_perm (refSamples cls key datas) h₂ p2.symm
+  rw [e3] at e3'; cases e3'
+  refine ⟨s₁, s₂, sr, e1, e2, e3, ?_⟩
+  intro o₁ o₂ oref r₁ r₂ rr
+  rw [terminalC_counters hW₁ t₁, terminalC_counters hW₂ t₂]
+  have x1 := (csv_of_state_deterministic_subkey alg hc _ _ a1 a2 a3 oref o₁ rr r₁).2
+  have x2 := (csv_of_state_deterministic_subkey alg hc _ _ b1 b2 b3 oref o₂ rr r₂).2
+  simp only [barsCmd, x1, x2, ← ae, ← be, and_self]
+
+/-- `rare spark --csv`, at the level of the exported TEXT: after ANY interleaving of the samples with render-trim steps
+(any strict total order on column names, any `--cols`, any map iteration orders, any contract-abiding `sort.Sort` in the
+renders and in the writer) the CSV written after the final render is byte for byte the CSV of one render step on the
+sequentially sampled table; it reads back (RFC 4180) as those rows; and the exit status is the same.  `WriteTable`'s
+name sorters are handed row sums and column totals (which a `Trim` leaves behind differently) but never look at them
+(`tableCsvRows_of_cells`). -/
+theorem spark_csv_any_render_schedule {lt : Bytes → Bytes → Bool} (ho : NameOrder lt) (n : Nat) (d : Bytes) (hd : d ≠ [])
+    (h : List Bytes) (t : Table) (hr : SparkReach lt n d h t)
+    (st co : List Bytes) (ro : Bytes → List Bytes) (hst : IsSortedCols lt t st) (hcov : Covers t co ro)
+    (sF coF : List Bytes) (roF : Bytes → List Bytes) (hsF : IsSortedCols lt (Table.run d h) sF)
+    (hcovF : Covers (Table.run d h) coF roF)
+    (alg : List NV → Algo NV (List NV)) (hc : SortContract alg) (c₁ r₁ cF rF : List Bytes)
+    (hc₁ : IsRangeOf c₁ (renderStep n t st co ro).cols) (hr₁ : IsRangeOf r₁ (renderStep n t st co ro).rows)
+    (hcF : IsRangeOf cF (renderStep n (Table.run d h) sF coF roF).cols)
+    (hrF : IsRangeOf rF (renderStep n (Table.run d h) sF coF roF).rows) (readErrors : Int) (matched : Nat) :
+    writeCsv (tableCsvRows (sortOf alg) c₁ r₁ (renderStep n t st co ro)) =
+      writeCsv (tableCsvRows isortFn cF rF (renderStep n (Table.run d h) sF coF roF)) ∧
+    parseCsv (writeCsv (tableCsvRows (sortOf alg) c₁ r₁ (renderStep n t st co ro))) =
+      tableCsvRows isortFn cF rF (renderStep n (Table.run d h) sF coF roF) ∧
+    determineErrorState readErrors false (renderStep n t st co ro).errors matched =
+      determineErrorState readErrors false (renderStep n (Table.run d h) sF coF roF).errors matched := by
+  obtain ⟨a, b, c, e⟩ := spark_trim_any_render_schedule ho n d hd h t hr st co ro hst hcov sF coF roF hsF hcovF
+  have hrows := tableCsvRows_of_cells alg hc _ _ a b c c₁ cF r₁ rF hc₁ hcF hr₁ hrF
+  refine ⟨by rw [hrows], ?_, by rw [e]⟩
+  rw [hrows]
+  exact csv_roundtrip _ (tableCsvRows_nonempty _ _ _ _)
+
+/-- The same for the executable model of `sparkFunction` that the `cmd` / `tbl` correspondence ops run against the real
+command: with a trimming configuration (no `--notruncate`, `--sort-cols` not value-ordered) the COMPLETE result – footer
+with the row and column counts, `--csv` text, exit status – after any script of samples and renders is the result on
+the sequentially sampled table. -/
+theorem spark_command_render_timing_independent (n : Nat) (d : Bytes) (hd : d ≠ []) (evs : List SparkEv) (sortCols : Bytes)
+    (hs : sortsByValue sortCols = false) (k : Counters) (readErrors : Int) :
+    sparkCmd n false sortCols (sparkRun n d evs) k readErrors =
+      sparkCmd n false sortCols (Table.run d (sparkSamples evs)) k readErrors := by
+  obtain ⟨a, b, c, e⟩ := spark_model_render_timing_independent n d hd evs
+  have nd1 := sparkRun_nd n d evs
+  have i2 := C07.tableInv_run d hd (sparkSamples evs)
+  have t1 := sparkTrim_nd n _ nd1.1 nd1.2
+  have t2 := sparkTrim_nd n _ i2.nodupRows i2.nodupCols
+  have hrows := tableCsvRows_of_cells_ref _ _ a b c _ _ _ _ ⟨t1.2, fun k => mem_akeys_iff _ _⟩ ⟨t2.2, fun k => mem_akeys_iff _ _⟩
+    ⟨t1.1, fun k => mem_akeys_iff _ _⟩ ⟨t2.1, fun k => mem_akeys_iff _ _⟩
+  have hl1 := length_eq_of_same_keys _ _ t1.1 t2.1 b
+  have hl2 := length_eq_of_same_keys _ _ t1.2 t2.2 c
+  simp only [sparkCmd, hs, Bool.not_false, Bool.and_self, if_true, tableCmd, hrows, e, hl1, hl2]
+
+/-- … and without trimming (`--notruncate`, or a value-ordered `--sort-cols`: b216f7d) `sparkFunction` is `tabulateFunction`
+on the untouched table, which `table_command_schedule_independent` covers. -/
+theorem spark_command_untrimmed (n : Nat) (noTruncate : Bool) (sortCols : Bytes) (t : Table) (k : Counters) (readErrors : Int)
+    (h : noTruncate = true ∨ sortsByValue sortCols = true) :
+    sparkCmd n noTruncate sortCols t k readErrors = tableCmd isortFn (akeys t.cols) (akeys t.rows) t k readErrors := by
+  rcases h with h | h <;> simp [sparkCmd, h]
+
+/-! ### non-vacuity for the command-function theorems -/
+
+/-- samples `a`, `b`, `b`, `c NUL 3`, `x NUL y` (a parse error), `--num 2 --atleast 2 --all`, default `--sort value`:
+the screen shows `c 3`, `b 2`, the footer counts 3 groups and 1 error, exit status 2 -/
+example : (let smp : List Bytes := [[97], [98], [98], [99, 0, 51], [120, 0, 121]]
+    match pureSortLess (asc "value") with
+    | some less => some ((histoCmd isortFn less (akeys (Counter.run smp).items) 2 2 true (Counter.run smp) ⟨5, 6, 0⟩ 0).lines,
+                         (histoCmd isortFn less (akeys (Counter.run smp).items) 2 2 true (Counter.run smp) ⟨5, 6, 0⟩ 0).exit)
+    | none => none) =
+    some ([ascii "c    3", ascii "b    2", ascii "Matched: 5 / 6 (Groups: 3) (Errors: 1)", ascii "Full Table:",
+           ascii "c    3", ascii "b    2", ascii "Matched: 5 / 6 (Groups: 3) (Errors: 1)"], 2) := by
+  decide +kernel
+/-- `spark --cols 1 --sort-cols text`: a w | render | b w, a w | render | b x – and the same samples without renders -/
+example : (let o := sparkCmd 1 false (asc "text") (sparkRun 1 [0] [.sample [97, 0, 119], .render, .sample [98, 0, 119],
+      .sample [97, 0, 119], .render, .sample [98, 0, 120]]) ⟨4, 4, 0⟩ 0
+      (o.exit, o.csv, o.lines)) = (0, ascii ",b\nw,1\nx,1\n", [ascii "Matched: 4 / 4 (R: 2; C: 1)"]) ∧
+    sparkSamples [.sample [97, 0, 119], .render, .sample [98, 0, 119], .sample [97, 0, 119], .render, .sample [98, 0, 120]] =
+      [[97, 0, 119], [98, 0, 119], [97, 0, 119], [98, 0, 120]] := by
+  decide +kernel
+example : NameOrder bytesLt := bytesLt_nameOrder
+example : ∃ h c, TerminalC exCls (·.text) exCfg exData h c := terminalC_inhabited exCls (·.text) exCfg exData (by decide) (by decide) (by decide)
 
 end Rare.C03
